@@ -130,6 +130,20 @@ func ResolveExpressionType(module *Module, fn *Function, handle ExpressionHandle
 	}
 }
 
+// resolveOperandType returns the type of an operand of the expression being
+// resolved. An operand always precedes the expression, so its type has
+// normally been recorded already; resolving it again from scratch revisits
+// every shared sub-expression once per use, which is exponential on chains such
+// as `let a1 = a0 + a0; let a2 = a1 + a1; ...`.
+func resolveOperandType(module *Module, fn *Function, handle ExpressionHandle) (TypeResolution, error) {
+	if int(handle) < len(fn.ExpressionTypes) && int(handle) < len(fn.Expressions) {
+		if t := fn.ExpressionTypes[handle]; t.Handle != nil || t.Value != nil {
+			return t, nil
+		}
+	}
+	return ResolveExpressionType(module, fn, handle)
+}
+
 // ResolveLiteralType resolves the type of a literal expression.
 func ResolveLiteralType(lit Literal) (TypeResolution, error) {
 	return resolveLiteralType(lit)
@@ -181,7 +195,7 @@ func resolveOverrideType(module *Module, expr ExprOverride) (TypeResolution, err
 }
 
 func resolveAccessType(module *Module, fn *Function, expr ExprAccess) (TypeResolution, error) {
-	baseType, err := ResolveExpressionType(module, fn, expr.Base)
+	baseType, err := resolveOperandType(module, fn, expr.Base)
 	if err != nil {
 		return TypeResolution{}, fmt.Errorf("access base: %w", err)
 	}
@@ -243,7 +257,7 @@ func resolveAccessType(module *Module, fn *Function, expr ExprAccess) (TypeResol
 }
 
 func resolveAccessIndexType(module *Module, fn *Function, expr ExprAccessIndex) (TypeResolution, error) {
-	baseType, err := ResolveExpressionType(module, fn, expr.Base)
+	baseType, err := resolveOperandType(module, fn, expr.Base)
 	if err != nil {
 		return TypeResolution{}, fmt.Errorf("access index base: %w", err)
 	}
@@ -317,7 +331,7 @@ func resolveAccessIndexType(module *Module, fn *Function, expr ExprAccessIndex) 
 }
 
 func resolveSplatType(module *Module, fn *Function, expr ExprSplat) (TypeResolution, error) {
-	valueType, err := ResolveExpressionType(module, fn, expr.Value)
+	valueType, err := resolveOperandType(module, fn, expr.Value)
 	if err != nil {
 		return TypeResolution{}, fmt.Errorf("splat value: %w", err)
 	}
@@ -346,7 +360,7 @@ func resolveSplatType(module *Module, fn *Function, expr ExprSplat) (TypeResolut
 }
 
 func resolveSwizzleType(module *Module, fn *Function, expr ExprSwizzle) (TypeResolution, error) {
-	vectorType, err := ResolveExpressionType(module, fn, expr.Vector)
+	vectorType, err := resolveOperandType(module, fn, expr.Vector)
 	if err != nil {
 		return TypeResolution{}, fmt.Errorf("swizzle vector: %w", err)
 	}
@@ -376,7 +390,7 @@ func resolveSwizzleType(module *Module, fn *Function, expr ExprSwizzle) (TypeRes
 }
 
 func resolveLoadType(module *Module, fn *Function, expr ExprLoad) (TypeResolution, error) {
-	pointerType, err := ResolveExpressionType(module, fn, expr.Pointer)
+	pointerType, err := resolveOperandType(module, fn, expr.Pointer)
 	if err != nil {
 		return TypeResolution{}, fmt.Errorf("load pointer: %w", err)
 	}
@@ -441,7 +455,7 @@ func resolveImageSampleType(module *Module, fn *Function, expr ExprImageSample) 
 // resolveImageGatherType resolves the return type for image gather operations.
 // Gather always returns vec4, with scalar kind matching the image's sampled kind.
 func resolveImageGatherType(module *Module, fn *Function, imageHandle ExpressionHandle) (TypeResolution, error) {
-	imageType, err := ResolveExpressionType(module, fn, imageHandle)
+	imageType, err := resolveOperandType(module, fn, imageHandle)
 	if err != nil {
 		return TypeResolution{}, fmt.Errorf("image gather image: %w", err)
 	}
@@ -479,7 +493,7 @@ func resolveImageLoadType(module *Module, fn *Function, expr ExprImageLoad) (Typ
 // resolveImageResultType resolves the return type for image sample/load operations.
 // Depth images return scalar f32, sampled/storage images return vec4<f32>.
 func resolveImageResultType(module *Module, fn *Function, imageHandle ExpressionHandle, context string) (TypeResolution, error) {
-	imageType, err := ResolveExpressionType(module, fn, imageHandle)
+	imageType, err := resolveOperandType(module, fn, imageHandle)
 	if err != nil {
 		return TypeResolution{}, fmt.Errorf("%s image: %w", context, err)
 	}
@@ -549,7 +563,7 @@ func resolveImageQueryType(module *Module, fn *Function, expr ExprImageQuery) (T
 
 		// Try to resolve the image's dimension from its type.
 		if fn != nil && int(expr.Image) < len(fn.Expressions) {
-			imgType, err := ResolveExpressionType(module, fn, expr.Image)
+			imgType, err := resolveOperandType(module, fn, expr.Image)
 			if err == nil {
 				var inner TypeInner
 				if imgType.Handle != nil && int(*imgType.Handle) < len(module.Types) {
@@ -592,7 +606,7 @@ func resolveImageQueryType(module *Module, fn *Function, expr ExprImageQuery) (T
 }
 
 func resolveUnaryType(module *Module, fn *Function, expr ExprUnary) (TypeResolution, error) {
-	operandType, err := ResolveExpressionType(module, fn, expr.Expr)
+	operandType, err := resolveOperandType(module, fn, expr.Expr)
 	if err != nil {
 		return TypeResolution{}, fmt.Errorf("unary operand: %w", err)
 	}
@@ -602,7 +616,7 @@ func resolveUnaryType(module *Module, fn *Function, expr ExprUnary) (TypeResolut
 }
 
 func resolveBinaryType(module *Module, fn *Function, expr ExprBinary) (TypeResolution, error) {
-	leftType, err := ResolveExpressionType(module, fn, expr.Left)
+	leftType, err := resolveOperandType(module, fn, expr.Left)
 	if err != nil {
 		return TypeResolution{}, fmt.Errorf("binary left: %w", err)
 	}
@@ -642,7 +656,7 @@ func resolveBinaryType(module *Module, fn *Function, expr ExprBinary) (TypeResol
 		//   matrix * vector → vector(rows)
 		//   vector * matrix → vector(columns)
 		// For same-type multiplication, left type is correct.
-		rightType, rightErr := ResolveExpressionType(module, fn, expr.Right)
+		rightType, rightErr := resolveOperandType(module, fn, expr.Right)
 		if rightErr != nil {
 			return TypeResolution{}, fmt.Errorf("binary right: %w", rightErr)
 		}
@@ -651,7 +665,7 @@ func resolveBinaryType(module *Module, fn *Function, expr ExprBinary) (TypeResol
 	default:
 		// Arithmetic and bitwise operators: if one side is scalar and the other is vector,
 		// the result is vector (WGSL broadcasts scalar to match vector size).
-		rightType, rightErr := ResolveExpressionType(module, fn, expr.Right)
+		rightType, rightErr := resolveOperandType(module, fn, expr.Right)
 		if rightErr == nil {
 			leftInner := TypeResInner(module, leftType)
 			rightInner := TypeResInner(module, rightType)
@@ -736,7 +750,7 @@ func TypeResInner(module *Module, res TypeResolution) TypeInner {
 
 func resolveSelectType(module *Module, fn *Function, expr ExprSelect) (TypeResolution, error) {
 	// Select returns the type of accept/reject (they must match)
-	acceptType, err := ResolveExpressionType(module, fn, expr.Accept)
+	acceptType, err := resolveOperandType(module, fn, expr.Accept)
 	if err != nil {
 		return TypeResolution{}, fmt.Errorf("select accept: %w", err)
 	}
@@ -745,7 +759,7 @@ func resolveSelectType(module *Module, fn *Function, expr ExprSelect) (TypeResol
 
 func resolveDerivativeType(module *Module, fn *Function, expr ExprDerivative) (TypeResolution, error) {
 	// Derivative preserves the expression type
-	exprType, err := ResolveExpressionType(module, fn, expr.Expr)
+	exprType, err := resolveOperandType(module, fn, expr.Expr)
 	if err != nil {
 		return TypeResolution{}, fmt.Errorf("derivative expr: %w", err)
 	}
@@ -753,7 +767,7 @@ func resolveDerivativeType(module *Module, fn *Function, expr ExprDerivative) (T
 }
 
 func resolveRelationalType(module *Module, fn *Function, expr ExprRelational) (TypeResolution, error) {
-	argType, err := ResolveExpressionType(module, fn, expr.Argument)
+	argType, err := resolveOperandType(module, fn, expr.Argument)
 	if err != nil {
 		return TypeResolution{}, fmt.Errorf("relational argument: %w", err)
 	}
@@ -789,7 +803,7 @@ func resolveRelationalType(module *Module, fn *Function, expr ExprRelational) (T
 }
 
 func resolveMathType(module *Module, fn *Function, expr ExprMath) (TypeResolution, error) {
-	argType, err := ResolveExpressionType(module, fn, expr.Arg)
+	argType, err := resolveOperandType(module, fn, expr.Arg)
 	if err != nil {
 		return TypeResolution{}, fmt.Errorf("math argument: %w", err)
 	}
@@ -968,7 +982,7 @@ func findNamedType(module *Module, name string) int {
 }
 
 func resolveAsType(module *Module, fn *Function, expr ExprAs) (TypeResolution, error) {
-	exprType, err := ResolveExpressionType(module, fn, expr.Expr)
+	exprType, err := resolveOperandType(module, fn, expr.Expr)
 	if err != nil {
 		return TypeResolution{}, fmt.Errorf("as expr: %w", err)
 	}
@@ -1041,7 +1055,7 @@ func findAtomicTypeForResult(module *Module, fn *Function, stmts []Statement, ha
 
 // ResolveAtomicPointerScalar resolves a pointer expression to its atomic scalar type.
 func ResolveAtomicPointerScalar(module *Module, fn *Function, pointer ExpressionHandle) *ScalarType {
-	ptrType, err := ResolveExpressionType(module, fn, pointer)
+	ptrType, err := resolveOperandType(module, fn, pointer)
 	if err != nil {
 		return nil
 	}
@@ -1070,7 +1084,7 @@ func findWorkGroupUniformLoadType(module *Module, fn *Function, stmts []Statemen
 	for _, stmt := range stmts {
 		if s, ok := stmt.Kind.(StmtWorkGroupUniformLoad); ok && s.Result == handle {
 			// Resolve the pointer type, then get the pointee.
-			ptrRes, err := ResolveExpressionType(module, fn, s.Pointer)
+			ptrRes, err := resolveOperandType(module, fn, s.Pointer)
 			if err != nil {
 				return nil
 			}
